@@ -273,3 +273,31 @@ Proof.
       cbn [pic_of p_fonts b_fonts set_pal set_fonts set_height set_layer get_font N.eqb]. unfold nd, same_font.
       cbn [font_named_default f_h f_len f_glyphs]. destruct Hwf as (H1 & H2 & _). auto.
 Qed.
+
+(* ------------------------------------------------------------------ known finding: sizes the loader accepts and the writer refuses *)
+(* signature C05-idf-resave-size-outside-writer-limits: the loader takes any number of rows (and widths up to 65536),
+   the writer refuses more than 200 rows (and, with SAUCE, widths above 510) *)
+Definition KnownC05_idf_size (p : pic) : Prop := 200 < p_h p.
+
+Lemma idf_known_size_refused compress p : KnownC05_idf_size p -> p_ice p = Ice -> save_idf compress p = Err 2.
+Proof.
+  intros H Hice. unfold save_idf. rewrite Hice. cbn [is_ice negb].
+  unfold KnownC05_idf_size in H. destruct (Z.ltb_spec 200 (p_h p)); [reflexivity|lia].
+Qed.
+
+(* a 1 x 201 file: one repeat header with count 201 *)
+Definition known_idf_file : list N :=
+  IDF_V1_4_HEADER ++ [0; 0; 0; 0; 0; 0; 0; 0; 1; 0; 201; 0; 65; 7]%N ++ repeat 0%N 4096 ++ repeat 0%N 48.
+
+Lemma known_idf_size_witness :
+  exists b, load_idf known_idf_file = Ok b /\ KnownC05_idf_size (pic_of b) /\ save_idf true (pic_of b) = Err 2.
+Proof.
+  destruct (load_idf known_idf_file) as [b| |] eqn:E; [|vm_compute in E; discriminate|vm_compute in E; discriminate].
+  exists b. split; [reflexivity|].
+  assert (Hh : b_h b = 201 /\ b_ice b = Ice).
+  { assert (H : match load_idf known_idf_file with Ok b' => b_h b' = 201 /\ b_ice b' = Ice | _ => False end) by (vm_compute; split; reflexivity).
+    rewrite E in H. exact H. }
+  destruct Hh as (Hh & Hi).
+  assert (Hk : KnownC05_idf_size (pic_of b)) by (unfold KnownC05_idf_size; cbn [pic_of p_h]; lia).
+  split; [exact Hk|]. apply idf_known_size_refused; [exact Hk|exact Hi].
+Qed.
